@@ -81,6 +81,14 @@ def as_term(eng, v, ty, st):
         return seq
     if k == 'bool' and not isinstance(v, VBool):
         return eng.truthy(v, st)
+    if k == 'val' and isinstance(v, VRef) and st is not None:
+        o = st.heap.get(v.loc)
+        if type(o).__name__ == 'HInst' and 'state' in o.fields and hasattr(o.fields['state'], 't'):
+            return o.fields['state'].t      # an object with an abstract state stands for that state
+    if k == 'val' and isinstance(v, VPy):
+        return eng.val_const(v.obj)
+    if k == 'val' and isinstance(v, VNone):
+        return eng.val_const(None)
     if k in ('int', 'bool', 'str', 'val'):
         if getattr(v, 'ty', None) != ty:
             raise Undecided('spec argument %r is not of type %r' % (v, ty))
